@@ -16,6 +16,9 @@ fn c08_depth_limit_slice() {
     let h: usize = kani::any();
     kani::assume(h < usize::MAX);
     let parent = Scope { height: StackDepth(h) };
+    crate::trace!(depth_limit = rt.limits.depth_limit);
+    crate::trace!(has_parent = has_parent);
+    crate::trace!(parent_height = h);
     let r = depth_step(if has_parent { Some(&parent) } else { None }, &rt);
     let new_height = if has_parent { h + 1 } else { 0 };
     match r {
